@@ -392,11 +392,65 @@ func c06GenTree(t *rapid.T, depth, maxDepth int, out *[]int) {
 	}
 }
 
+// a raw or comment block is closed by its own end tag whatever its body holds - an opening delimiter that is
+// never closed, too - and under every engine's delimiters, in whatever order the engines of a process are used
+
+type c06OpaqueCase struct {
+	Kind   string `json:"kind"`   // raw | comment
+	Opener int    `json:"opener"` // what the body holds: 0 an object opener, 1 a tag opener and a name, 2 both
+	Order  []int  `json:"order"`  // the delimiter sets, in the order in which their engines are used
+}
+
+var c06DelimSets = [][4]string{{"{{", "}}", "{%", "%}"}, {"<<", ">>", "<%", "%>"}, {"[[", "]]", "[%", "%]"}}
+
+var c06Opaque = hx.Define("c06.opaque-bodies", func(c *c06OpaqueCase, s *hx.Sub) *hx.Violation {
+	for _, di := range c.Order {
+		d := c06DelimSets[di%len(c06DelimSets)]
+		body := []string{"note " + d[0] + " ", "note " + d[2] + " if ", "n " + d[0] + " o " + d[2] + " for "}[c.Opener%3]
+		src := "a" + d[2] + " " + c.Kind + " " + d[3] + body + d[2] + " end" + c.Kind + " " + d[3] + "b" + d[0] + " x " + d[1] + "c" + d[2] + " assign q = 1 " + d[3]
+		want := "ab1c"
+		if c.Kind == "raw" {
+			want = "a" + body + "b1c"
+		}
+		eng := newEngine(nil)
+		if di != 0 {
+			eng.Delims(d[0], d[1], d[2], d[3])
+		}
+		o := hx.RenderWith(eng, src, map[string]any{"x": 1})
+		if o.Panic != nil {
+			return hx.V("panic@"+o.Panic.Site, "Delims%q on %q: %v", d, src, o.Panic)
+		}
+		if !o.OK() || o.Out != want {
+			return hx.V("c06:closed-block-rejected", "with the delimiters %q (engines used in the order %v) the template %q, whose %s block is closed by its own end tag, gives %v; expected %q", d, c.Order, src, c.Kind, o, want)
+		}
+	}
+	s.NT()
+	if s.WantSample() {
+		s.Sample(map[string]any{"kind": c.Kind, "opener": c.Opener, "order": c.Order})
+	}
+	return nil
+})
+
 func TestC06(t *testing.T) {
 	col := hx.NewCollector("C06")
 	defer col.Finish()
 	col.Corpus()
 	env := col.Env
+
+	op := c06Opaque.On(col, "exhaustive over a list: raw and comment blocks closed by their own end tag whose body holds an unclosed object opener, an unclosed tag opener, or both, followed by an object and a tag; written with three delimiter sets whose engines are used one after another in every order within one process. Oracle: accepted, and renders the text around the block (and the raw body verbatim). Distinct by construction", true)
+	{
+		i := 0
+		for _, kind := range []string{"raw", "comment"} {
+			for opener := 0; opener < 3; opener++ {
+				for _, order := range [][]int{{0, 1, 2}, {1, 0, 2}, {2, 1, 0}, {1, 2, 0}, {0, 2, 1}, {2, 0, 1}} {
+					i++
+					// (every shard runs every case: what a process remembers from its first engine is the point)
+					_ = env
+					op.Run(&c06OpaqueCase{Kind: kind, Opener: opener, Order: order})
+				}
+			}
+		}
+	}
 
 	N := env.Pick(5, 6)
 	seqs := c06Seq.On(col, fmt.Sprintf("bounded-exhaustive: every token sequence of length 0..%d over the 22-symbol alphabet {8 block opens, else/elsif/when, 8 end tags, a plain tag, an object, text} with fixed valid arguments; then rapid: well-nested trees up to depth 40 and the same trees after one edit (delete a token, insert a stray end/clause tag, swap neighbours, rename an end tag). Oracle: ParseTemplate succeeds iff the reference acceptor (stack machine; comment/raw are modes ended by their own end tag; else admitted by if/unless/case/for, elsif by if, when by case; empty stack and no open mode at the end) accepts; a rejected source renders nothing; for accepted sources the render tree (Template.GetRoot) equals the reference tree and a render with all conditions true and one-element collections shows exactly the markers of the first branches in order. Non-trivial: the sequence contains a block-structural token; distinct by sequence", N), false)
